@@ -66,7 +66,43 @@ TraceVerdict(rec) ==
        THEN PrintT(<<"V", rec.id, v[1], ToJson(<<v[2]>>)>>)
   ELSE PrintT(<<"V", rec.id, "fail", ToJson(<<<<0, v[1], v[2], v[2]>>>>)>>)
 
+\* ---- event traces of the real EqualityComparer (the clauses of PtEqMemo)
+\* event: [c (comparer number), ev, a, b, res]; a, b are node positions of the export
+RECURSIVE MemoFold(_, _, _, _, _, _)
+MemoFold(evs, k, entered, memo, cls, nodes) ==
+  IF k > Len(evs) THEN <<"ok", 0>>
+  ELSE LET e == evs[k]
+           se == cls[e.a] = cls[e.b] IN
+    CASE e.ev = "same" -> IF e.a # e.b THEN <<"machinery:same", k>>
+                          ELSE MemoFold(evs, k + 1, entered, memo, cls, nodes)
+      [] e.ev = "kind" -> IF nodes[e.a].kind = nodes[e.b].kind THEN <<"machinery:kind", k>>
+                          ELSE MemoFold(evs, k + 1, entered, memo, cls, nodes)
+      [] e.ev = "enter" -> IF <<e.c, e.a, e.b>> \in entered THEN <<"MemoOncePerPair", k>>
+                           ELSE MemoFold(evs, k + 1, entered \cup {<<e.c, e.a, e.b>>}, memo,
+                                         cls, nodes)
+      [] e.ev = "ret" -> IF e.res # se THEN <<"MemoSound", k>>
+                         ELSE MemoFold(evs, k + 1, entered,
+                                       memo \cup {<<e.c, e.a, e.b, e.res>>}, cls, nodes)
+      [] e.ev = "hit" -> IF <<e.c, e.a, e.b, e.res>> \notin memo THEN <<"MemoHitConsistent", k>>
+                         ELSE MemoFold(evs, k + 1, entered, memo, cls, nodes)
+
+MemoVerdict(rec) ==
+  LET cls == TLCEval(Classes(rec.nodes, "ident"))
+      v == MemoFold(rec.evs, 1, {}, {}, cls, rec.nodes)
+      nenter == Cardinality({k \in DOMAIN rec.evs : rec.evs[k].ev = "enter"})
+      fin == IF v[1] # "ok" THEN v
+             ELSE IF rec.result # (cls[rec.roots[1]] = cls[rec.roots[2]])
+                  THEN <<"EqIsStructEq", 0>>
+             ELSE IF rec.ncomparers # 1 THEN <<"MemoSingleComparer", rec.ncomparers>>
+             ELSE IF nenter > Len(rec.nodes) THEN <<"MemoLinear", nenter>>
+             ELSE <<"ok", 0>>
+  IN IF fin[1] = "ok" THEN PrintT(<<"V", rec.id, "ok">>)
+     ELSE IF fin[1] \in {"machinery:same", "machinery:kind"}
+          THEN PrintT(<<"V", rec.id, fin[1], ToJson(<<fin[2]>>)>>)
+     ELSE PrintT(<<"V", rec.id, "fail", ToJson(<<<<0, fin[1], fin[2], fin[2]>>>>)>>)
+
 Verdict == LET rec == Batch[r] IN
   CASE rec.rel = "family" -> FamilyVerdict(rec)
     [] rec.rel = "trace"  -> TraceVerdict(rec)
+    [] rec.rel = "memo"   -> MemoVerdict(rec)
 =============================================================================
